@@ -370,12 +370,18 @@ pub fn run(ctx: &Ctx) -> i32 {
     let n_emph = ctx.size(12000, 2000000);
     let seed = ctx.seed;
     let opts = GenOpts::common();
-    let mut acc = crate::par::run(n_mixed + n_emph, 16, |i, acc| {
-        let (bytes, class) = if i < n_mixed {
+    // every hand-written seed once (rare forms of every format), then the generated corpora
+    let all_seeds = corpus::seeds();
+    let n_seeds = all_seeds.len();
+    let mut acc = crate::par::run(n_seeds + n_mixed + n_emph, 16, |i, acc| {
+        let (bytes, class) = if i < n_seeds {
+            (all_seeds[i].bytes.clone(), "seed_whole")
+        } else if i - n_seeds < n_mixed {
+            let i = i - n_seeds;
             let it = corpus::mixed_item(seed, i, &opts);
             (it.bytes, it.class)
         } else {
-            emphasised(seed, i - n_mixed)
+            emphasised(seed, i - n_seeds - n_mixed)
         };
         if bytes.len() >= 2 << 20 {
             return;
